@@ -3,11 +3,54 @@ NOTES = ("Every check enumerates a declared finite space completely against the 
          "tree (see DESIGN.md). Genuine defects found are either repaired by fix: commits in /repo or listed in "
          "known_findings.json.")
 ENGINES = [
-    {"name": "E4 enum", "path": "engines/enumerate.py", "serves_properties": ["C19"],
+    {"name": "E1 sysched", "path": "engines/sysched.py", "serves_properties": ["C06", "C07", "C08", "C10"],
+     "kind_free_text": "stateless explorer of all interleavings of 2-3 actors at system-call granularity (fsint.py interposition), iterative preemption bounding, replay-before-report"},
+    {"name": "E2 crashfs", "path": "engines/crashfs.py", "serves_properties": ["C07", "C09", "C04"],
+     "kind_free_text": "enumeration of every crash point / fault point of an operation over the interposed file system"},
+    {"name": "E3 statespace", "path": "engines/statespace.py", "serves_properties": ["C06", "C10", "C14", "C16", "C17", "C18"],
+     "kind_free_text": "explicit-state BFS over operation sequences on real repositories with canonical directory snapshots"},
+    {"name": "E4 enum", "path": "engines/enumerate.py", "serves_properties": ["C01", "C02", "C03", "C05", "C11", "C12", "C13", "C15", "C19", "C20"],
      "kind_free_text": "bounded-exhaustive input/chunking enumeration with reference-model and C-git oracles"},
+    {"name": "E5 mutfault", "path": "engines/mutfault.py", "serves_properties": ["C04", "C11", "C14"],
+     "kind_free_text": "every truncation / bit flip / byte substitution of small artefacts"},
+    {"name": "E6 sandbox", "path": "engines/sandbox.py", "serves_properties": ["C03", "C04", "C15"],
+     "kind_free_text": "rlimit-ed long-lived child processes observing aborts, hangs and memory blow-ups per input"},
 ]
 NA_REASONS = {}
 CHECKS = {
+    "C07": dict(
+        engine="E1 sysched + E2 crashfs", category="model_checking",
+        technique="stateless exploration of all syscall-level interleavings up to a preemption bound on the real GitFile code; exhaustive fault-site enumeration",
+        text=("Every interleaving (<=3 preemptions quick, <=5 thorough for 2 actors; 3 actors <=2/3) of real GitFile open/write/close|abort programs "
+              "and of 12 pairs / 3 triples of real dulwich writers on one repository is executed with lock-ownership, non-interference and "
+              "whole-file-replacement invariants evaluated between every two system calls; every mutating system call inside 18 lock-protocol "
+              "writers is made to fail with ENOSPC/EIO/EPERM/KeyboardInterrupt (thorough: two faults). Absence of a violation is exhaustive within these bounds."),
+        note="Trusted: the interposition layer (completeness cross-checked by an audit hook), tmpfs semantics, atomic sequentially consistent syscalls; fd-level I/O on private lock files is not a scheduling point.",
+    ),
+    "C08": dict(
+        engine="E1 sysched", category="model_checking",
+        technique="stateless exploration of syscall-level interleavings (preemption-bounded) + brute-force linearizability against a dict model",
+        text=("2-3 actors with private DiskRefsContainer/Repo objects run 1-2 operations from a 12-operation alphabet from 6 initial ref states; all "
+              "interleavings with <=2 (quick) / <=3 (thorough) preemptions; each complete history must have a linearization under the map model (errors = no effect), "
+              "readers must only see values the ref held while they ran, final disk state must equal the model. WorkTree.commit racers: every commit reported "
+              "successful must be an ancestor of the final tip."),
+        note="Trusted: as C07; commit scenarios use a conflict-filtered reduction (preempt only before calls whose path another actor touches), footprints iterated to a fixpoint. One residual defect is a known finding.",
+    ),
+    "C11": dict(
+        engine="E4 enum + E5 mutfault", category="exploration",
+        technique="bounded-exhaustive enumeration of index contents x versions; independent format parser + C git as oracles; exhaustive single-fault damage",
+        text=("Every subset of <=3 (thorough <=4) names of a 25-name pool engineered for ordering, the 0xFFF name-length saturation and v4 prefix compression, every stage "
+              "subset, flag combination, padding length and stat boundary value is written by dulwich, by an independent reference writer and by C git and read by the others; "
+              "every truncation / bit flip / byte substitution of small written indexes must be detected."),
+        note="Trusted: engines/refmodels/indexfile.py (cross-validated against git ls-files --debug on every flawless file), git 2.39.5.",
+    ),
+    "C20": dict(
+        engine="E4 enum", category="exploration",
+        technique="bounded-exhaustive enumeration of config values/names/operation sequences; reference model + C git as oracles",
+        text=("All values of length <=4 (thorough <=5) over the 12 special characters, a full byte sweep, all section/subsection/key names over small alphabets, all "
+              "set/add/remove/rewrite sequences <=3, judged on dulwich-write/dulwich-read, dulwich-write/git-read and git-write/dulwich-read."),
+        note="Trusted: engines/refmodels/gitconfig.py (must agree with C git on every file used, else harness error), git 2.39.5 config parser.",
+    ),
     "C19": dict(
         engine="E4 enum", category="exploration",
         technique="bounded-exhaustive enumeration of frame sequences x all read chunkings, all 65536 length prefixes; reference codec oracle",
